@@ -122,6 +122,7 @@ on a pool stub, against the `Runahead` component model
 case:  {"direct": {"seqs": [[p..]..], "limit": {"count": n} | {"dur": d}, "start": p, "stop": p|null,
                    "ops": [{"op":"pool","tasks":[[p, off|null, rh]..]} | {"op":"offset"} |
                            {"op":"compute","force":b} | {"op":"release"}]}}
+       ("guarded": which variant of the stop-point early return the code under test has, see `Runahead.Cfg`)
 obs:   one per op: {"rl": p|null, "off": d|null, "ch": b|null, "rel": [p..] (ascending)}
 
 The judge reads the observed `rel` lists only (and the ops of the case): every point released by a
@@ -164,7 +165,8 @@ def parseDCase (j : Json) : Except String DCase := do
   let start ← req (jIntField? j "start") "start"
   let stop := (jOptField j "stop").bind jInt?
   let ops ← ((jArrField? j "ops").getD []).mapM parseDOp
-  return { cfg := { seqs, limit, start, stop }, ops }
+  let guarded := (jBoolField? j "guarded").getD false
+  return { cfg := { seqs, limit, start, stop, guarded }, ops }
 
 def obsJsonD (o : Runahead.Obs) : Json :=
   Json.mkObj [("rl", jOptInt o.limit), ("off", jOptInt o.maxOff),
